@@ -24,8 +24,26 @@ mod executor {
 
 mod seqops;
 mod slscen;
+mod tscen;
 
 use std::io::{BufRead, Write};
+
+struct TrackAlloc;
+unsafe impl std::alloc::GlobalAlloc for TrackAlloc {
+    unsafe fn alloc(&self, l: std::alloc::Layout) -> *mut u8 {
+        let p = std::alloc::System.alloc(l);
+        sched::on_alloc(p as usize, l.size());
+        p
+    }
+    unsafe fn dealloc(&self, p: *mut u8, l: std::alloc::Layout) {
+        if sched::on_dealloc(p as usize, l.size()) {
+            return; // quarantined
+        }
+        std::alloc::System.dealloc(p, l)
+    }
+}
+#[global_allocator]
+static GLOBAL: TrackAlloc = TrackAlloc;
 
 fn main() {
     let args: Vec<String> = std::env::args().collect();
